@@ -247,6 +247,7 @@ func C09(ctx *core.Ctx) int {
 	texts := grammarTexts(budget, dsl.NamesUnique)
 	texts = append(texts, repoSamples(ctx)...)
 	texts = append(texts, programTexts(corpusPrograms(ctx))...)
+	texts = append(texts, specialTexts()...)
 	if ctx.Replay != "" {
 		return replayText(ctx, func(c *core.Ctx, t Text) { c09Valid(c, t, &c09Stats{}, true) })
 	}
@@ -408,6 +409,9 @@ func c09Valid(ctx *core.Ctx, t Text, st *c09Stats, full bool) {
 			}
 		}
 	}
+	if t.Raw != "" {
+		one("as written", t.Raw, "comments of a hand-written text with special characters / repeated comments", true)
+	}
 	one("pretty", dsl.Render(toks, dsl.Pretty), "", true)
 	one("one-line", dsl.Render(toks, dsl.OneLine), "", false)
 	n := len(toks)
@@ -439,12 +443,52 @@ func c09Valid(ctx *core.Ctx, t Text, st *c09Stats, full bool) {
 		one(fmt.Sprintf("own-line comment before token %d", i), dsl.Join(toks, g),
 			"own-line|"+ownPos[i], false)
 	}
+	// the same comment text at two positions (a formatter that tracks comments by their text loses one)
+	for _, pr := range [][2]int{{0, n - 1}, {1, n / 2}, {n / 3, 2 * n / 3}} {
+		i, j := pr[0], pr[1]
+		if i < 0 || j >= n || i >= j {
+			continue
+		}
+		g := dsl.Gaps(toks, dsl.Pretty)
+		g[i+1] = " // same text\n" + trimLeadingNewlines(g[i+1])
+		g[j+1] = " // same text\n" + trimLeadingNewlines(g[j+1])
+		x := dsl.Join(toks, g)
+		// only meaningful where each of the two comments alone survives
+		a := dsl.Gaps(toks, dsl.Pretty)
+		a[i+1] = " // same text\n" + trimLeadingNewlines(a[i+1])
+		b := dsl.Gaps(toks, dsl.Pretty)
+		b[j+1] = " // same text\n" + trimLeadingNewlines(b[j+1])
+		if keepsComments(dsl.Join(toks, a)) && keepsComments(dsl.Join(toks, b)) {
+			one(fmt.Sprintf("identical trailing comments after tokens %d and %d", i, j), x, "two comments with identical text, each of which survives alone", false)
+		}
+		g2 := dsl.Gaps(toks, dsl.Pretty)
+		g2[i] = g2[i] + "\n// same text\n"
+		g2[j] = g2[j] + "\n// same text\n"
+		a2 := dsl.Gaps(toks, dsl.Pretty)
+		a2[i] = a2[i] + "\n// same text\n"
+		b2 := dsl.Gaps(toks, dsl.Pretty)
+		b2[j] = b2[j] + "\n// same text\n"
+		if keepsComments(dsl.Join(toks, a2)) && keepsComments(dsl.Join(toks, b2)) {
+			one(fmt.Sprintf("identical own-line comments before tokens %d and %d", i, j), dsl.Join(toks, g2), "two comments with identical text, each of which survives alone", false)
+		}
+	}
 	if n > 0 {
 		base := dsl.Render(toks, dsl.Pretty)
 		one("comment at end of file without newline", strings.TrimRight(base, "\n")+"\n// eof", "own-line|at end of file without final newline", false)
 		one("trailing comment at end of file without newline", strings.TrimRight(base, "\n")+" // eof", "trailing|at end of file without final newline", false)
 		one("two comments at start", "// one\n// two\n"+base, "own-line|two at start of file", false)
 	}
+}
+
+// keepsComments reports whether formatting x keeps its comment sequence.
+func keepsComments(x string) bool {
+	y, err := api.Format(x)
+	if err != nil {
+		return false
+	}
+	_, cx, _ := normTokens(x)
+	_, cy, _ := normTokens(y)
+	return strings.Join(cx, "\n") == strings.Join(cy, "\n")
 }
 
 func what0(w string) string {
